@@ -337,6 +337,8 @@ static const char *const x509_der_seeds[] = { "EC/256_EC.pem", "RSA/2048_RSA.pem
     "RSA/2048_RSA_SHA512.pem", "RSA/2048_RSA_PSS_CA.pem", "ECDH_RSA/256_ECDH-RSA.pem", "ECDH_RSA/ecdsaCert.pem", "trusted-roots/DSTRootCAX3.pem",
     "trusted-roots/DigiCertGlobalRootCA.pem", NULL };
 static const char *const x509_quick4_seeds[] = { "EC/256_EC.pem", "RSA/2048_RSA_PSS.pem", "embedded/rich_ec256.der", "EC/ALL_EC_CAS_EXCEPT_P192_P224_AND_P521.pem", NULL };
+static const char *const rsa_byte_seeds[] = { "RSA/1024_RSA_KEY.pem", "RSA/2048_RSA_KEY.pem", NULL };
+static const char *const dh_byte_seeds[] = { "DH/dh512.pem", "DH/1024_DH_PARAMS.pem", "DH/ffdhe2048_DH_PARAMS.pem", "DH/dh2048_key.pem", NULL };
 static const char *const pem_cert_byte_seeds[] = { "EC/256_EC.pem", "RSA/1024_RSA.pem", "EC/ED25519.pem", "RSA/2048_RSA_PSS.pem", "embedded/rich_ec256.pem",
     "ECDH_RSA/ALL_ECDH-RSA_CAS.pem", NULL };
 static const char *const pem_any_byte_seeds[] = { "EC/256_EC_KEY.pem", "RSA/1024_RSA_KEY.pem", "EC/ED25519_KEY.pem", "EC/256_EC.pem", "RSA/2048_RSA_PUB.pem",
@@ -344,9 +346,9 @@ static const char *const pem_any_byte_seeds[] = { "EC/256_EC_KEY.pem", "RSA/1024
     "RSA/2048_RSA_KEY_encrypted.pem", NULL };
 #define STORE (CERT_STORE_UNPARSED_BUFFER | CERT_STORE_DN_BUFFER)
 static const entry_t entries[] = {
-    { "psX509ParseCert/flags0", F_X509, 0, NULL, KB(K_CERT_DER), 0, C_ALL, 0, NULL, INT_MAX, x509_quick4_seeds },
+    { "psX509ParseCert/flags0", F_X509, 0, NULL, KB(K_CERT_DER), 0, C_ALL, 0, NULL, INT_MAX, x509_quick4_seeds, x509_quick4_seeds },
     { "psX509ParseCert/store", F_X509, STORE, NULL, KB(K_CERT_DER), 0, C_ALL, 0, NULL, INT_MAX, NULL, x509_quick_seeds, x509_der_seeds },
-    { "psX509ParseCert/partial", F_X509, STORE | CERT_ALLOW_BUNDLE_PARTIAL_PARSE, NULL, KB(K_CERT_DER), 0, C_ALL, 0, NULL, INT_MAX, x509_quick_seeds },
+    { "psX509ParseCert/partial", F_X509, STORE | CERT_ALLOW_BUNDLE_PARTIAL_PARSE, NULL, KB(K_CERT_DER), 0, C_ALL, 0, NULL, INT_MAX, x509_quick_seeds, x509_quick4_seeds },
     { "psX509ParseCertData/pem", F_X509DATA, STORE, NULL, KB(K_CERT_PEM), 1, C_ALL, 4000, NULL, INT_MAX, NULL, pem_cert_byte_seeds },
     { "psX509ParseCertData/pem-partial", F_X509DATA, STORE | CERT_ALLOW_BUNDLE_PARTIAL_PARSE, NULL, KB(K_CERT_PEM), 1, C_IDENT | C_TRUNC | C_PEM, 0, NULL, INT_MAX },
     { "psX509ParseCertData/der", F_X509DATA, 0, NULL, KB(K_CERT_DER), 1, C_IDENT | C_TRUNC | C_DER, 0, x509data_der_seeds, INT_MAX },
@@ -356,7 +358,7 @@ static const entry_t entries[] = {
     { "psOcspParseResponse", F_OCSP, 0, NULL, KB(K_OCSP_DER), 0, C_ALL | C_RAW3, 0, NULL, 0 },
     { "psPkcs8ParsePrivBin", F_P8, 0, NULL, KB(K_P8_DER), 0, C_ALL | C_RAW3, 0, NULL, INT_MAX },
     { "psPkcs8ParsePrivBin/pass", F_P8, 0, C09_PASSWORD, KB(K_P8E_DER) | KB(K_P8_DER), 0, C_ALL, 0, NULL, INT_MAX },
-    { "psRsaParsePkcs1PrivKey", F_RSAPRIV, 0, NULL, KB(K_RSAKEY_DER), 0, C_ALL | C_RAW3, 0, NULL, INT_MAX },
+    { "psRsaParsePkcs1PrivKey", F_RSAPRIV, 0, NULL, KB(K_RSAKEY_DER), 0, C_ALL | C_RAW3, 0, NULL, INT_MAX, NULL, rsa_byte_seeds },
     { "psEccParsePrivKey", F_ECPRIV, 0, NULL, KB(K_ECKEY_DER), 0, C_ALL | C_RAW3, 0, NULL, INT_MAX },
     { "psEd25519ParsePrivKey", F_EDPRIV, 0, NULL, KB(K_P8_DER), 0, C_ALL | C_RAW3, 0, NULL, INT_MAX },
     { "psParseUnknownPrivKeyMem", F_UNKPRIV, 0, NULL, KB(K_RSAKEY_DER) | KB(K_ECKEY_DER) | KB(K_P8_DER) | KB(K_MISC_DER), 0, C_ALL, 700, NULL, 16 },
@@ -373,7 +375,7 @@ static const entry_t entries[] = {
     { "matrixSslLoadKeysMem/cert-der", F_LOADKEYS, 0, NULL, KB(K_CERT_DER), 1, C_IDENT | C_TRUNC | C_DER, 0, lk_cert_seeds, 0 },
     { "matrixSslLoadKeysMem/key-der", F_LOADKEYS, 1, NULL, KB(K_ECKEY_DER) | KB(K_RSAKEY_DER) | KB(K_P8_DER), 1, C_IDENT | C_TRUNC | C_DER, 0, lk_key_seeds, 0 },
     { "matrixSslLoadKeysMem/ca-der", F_LOADKEYS, 2, NULL, KB(K_CERT_DER), 1, C_IDENT | C_TRUNC | C_DER, 0, lk_ca_seeds, 0 },
-    { "psPkcs3ParseDhParamBin", F_DH, 0, NULL, KB(K_DH_DER) | KB(K_MISC_DER), 0, C_ALL | C_RAW3, 1300, NULL, 0 },
+    { "psPkcs3ParseDhParamBin", F_DH, 0, NULL, KB(K_DH_DER) | KB(K_MISC_DER), 0, C_ALL | C_RAW3, 1300, NULL, 0, NULL, dh_byte_seeds },
     { "psParseUnknownPubKeyMem", F_UNKPUB, 0, NULL, KB(K_PUB_DER) | KB(K_PUB_PEM), 1, C_ALL, 0, NULL, 0 },
     { "psParseUnknownPubKeyMem/unterminated", F_UNKPUB, 0, NULL, KB(K_PUB_DER) | KB(K_PUB_PEM), 0, C_IDENT | C_RAW, 0, NULL, 0 },
     { "psRsaParsePubKeyMem", F_RSAPUBMEM, 0, NULL, KB(K_PUB_DER) | KB(K_PUB_PEM), 1, C_ALL, 0, NULL, 0 },
@@ -1600,7 +1602,8 @@ static void run_group(long gi, void *unused)
     nskip_b = 0;
     for (lo = g->lo; lo < g->hi; )
     {
-        long hi = lo + BATCH < g->hi ? lo + BATCH : g->hi, pos = lo;
+        long bsz = g->s == RAW_SEED ? 20 * BATCH : BATCH; /* raw strings are rejected in microseconds: larger batches */
+        long hi = lo + bsz < g->hi ? lo + bsz : g->hi, pos = lo;
         long b_ok = 0, b_err = 0, b_na = 0, b_crash = 0, b_skip = 0;
         uint64_t rch = FNV0;
         mx_result_t r;
@@ -1784,7 +1787,7 @@ int main(int argc, char **argv)
     cfg.rule = "case = (parser entry point incl. flag/password variant, seed, mutation index): ident | truncation length | (offset,value) | (DER node,op) | PEM edit | raw string; "
                "violation = sanitizer report, crash, no result within the per-case time bound, rc neither success nor negative, live-allocation imbalance after free "
                "(repeatable twice), or a successfully returned object with a (ptr,len) outside its allocation / a missing string terminator / an embedded NUL in a "
-               "string-typed field; one record per batch of <=1000 cases (transitions = cases), every violation individually; excluded from the oracle: whether a mutated "
+               "string-typed field; one record per batch of <=1000 cases (<=20000 for raw strings; transitions = cases), every violation individually; excluded from the oracle: whether a mutated "
                "input is accepted or rejected (any verdict is fine), AIA/netscape-comment fields (counted strings, no terminator promised)";
     cfg.assumptions[0] = "PEM-capable entry points get a NUL byte after the input (the C-string convention their own callers use); the same entry points are additionally "
                          "run on exact-size unterminated buffers for ident + all strings of length <= 2 (variants named */unterminated)";
